@@ -111,4 +111,16 @@ CHECKS = {
                 "one action); re-entrant closers are excluded by the API contract",
         "technique": "Lean 4 proof (counting invariant by induction over action sequences) + regenerated tie lemmas + exact and racing correspondence runs",
     },
+    "C10": {
+        "text": "Lean 4 theorems: Send issues one Write holding the whole frame; for every interleaving of the senders' "
+                "sequences (inductive relation = every schedule of whole Write calls) and every fragmentation by the "
+                "transport the reader returns exactly the interleaved sequence (corollary of the C01 stream theorem); "
+                "every sender's sequence is a sublist of it and the length is the number sent; dispatch acts pointwise "
+                "on the handler table, so a staying handler with room receives exactly the filter of the arrival order; "
+                "the harness's acceptor is proved sound w.r.t. the inductive relation; tied by regenerated flows of "
+                "Send / Message.Write / stream wrappers / process and by concurrent runs over five transports",
+        "note": "atomicity of one transport Write is an assumption about the Go runtime (stated in the evidence); schedules are sampled, "
+                "the theorem covers all of them at the granularity of whole Write calls",
+        "technique": "Lean 4 proof (interleaving induction, corollary of the C01 round trip, pointwise dispatch) + regenerated tie lemmas + concurrent correspondence runs on real transports",
+    },
 }
